@@ -23,6 +23,19 @@ def run : P String := do
       let ss := subsets (fs.length + 1) fs
       let norm := ss.map fun s => (s.toArray.qsort (· < ·)).toList
       pure ("subsets " ++ " | ".intercalate (norm.map fun s => " ".intercalate (s.map toString)))
+  | "inwards" => do
+      -- faces, then the seed verdicts as pairs (number of remaining faces at the call, verdict 0/1)
+      let fs ← faces
+      let k ← nat
+      let vs ← many k (do pure (← nat, ← nat))
+      let seed : List Nat → Bool := fun idx => match vs.find? (fun p => p.1 == idx.length) with
+        | some p => p.2 != 0
+        | none => false
+      let st := orientLoop seed fs (2 * fs.length + 1) (orientInit fs)
+      let m := inwardsMask seed fs
+      let fixed := fixOrientation seed fs
+      pure (s!"inwards left={st.indices.length} mask " ++ String.join (m.map fun b => if b then "1" else "0") ++ " faces " ++
+        " ".intercalate (fixed.map fun f => s!"{f.1},{f.2.1},{f.2.2}"))
   | t => throw s!"unknown mesh command {t}"
 
 def step (line : String) : String :=
